@@ -5909,8 +5909,8 @@ def _vindex_array(x, dict_indexes):
     starts = (b[i] for i, b in zip(block_idxs, bounds2))
     inblock_idxs = []
     for idx, start in zip(dict_indexes.values(), starts):
-        a = idx - start
-        if len(a) > 0:
+        a = np.asarray(idx - start)
+        if a.size > 0:
             dtype = np.min_scalar_type(np.max(a, axis=None))
             inblock_idxs.append(a.astype(dtype, copy=False))
         else:
